@@ -1,0 +1,11 @@
+//go:build verif
+
+package atp
+
+// Read-only accessors for verification tooling (build tag "verif"). Add-only: nothing in
+// this file is referenced by the SDK itself.
+
+// VerifSupportedServerVersions returns a copy of the protocol versions the client accepts.
+func VerifSupportedServerVersions() []int64 {
+	return append([]int64{}, supportedServerVersions...)
+}
